@@ -1,0 +1,92 @@
+//! Verification hooks (cargo feature `verif-hooks`, off by default).
+//!
+//! With the feature on, every allocator call of this crate goes through a replaceable table of
+//! function pointers, and a few buffer accesses are reported through `note`. With the feature off
+//! this module does not exist and the crate is unchanged.
+
+use core::alloc::Layout;
+use core::sync::atomic::{AtomicPtr, Ordering};
+
+/// Kind of access reported through [`Hooks::note`].
+#[derive(Clone, Copy, Debug, PartialEq, Eq)]
+#[repr(u8)]
+pub enum Note {
+    /// `HeapBuffer::as_str`: the crate reads `len` text bytes at `ptr` (copy-out paths).
+    InternalRead = 0,
+    /// `HeapBuffer::capacity`: the header in front of data pointer `ptr` is read.
+    HeaderRead = 1,
+    /// `Repr::as_bytes` on a heap string: `len` text bytes at `ptr` are handed to a reader.
+    Read = 2,
+    /// `Repr::as_slice_mut` on a heap string: a write window of `len` (= capacity) bytes at `ptr`.
+    WriteWindow = 3,
+}
+
+/// Replaceable allocator and observer table.
+pub struct Hooks {
+    pub alloc: unsafe fn(Layout) -> *mut u8,
+    pub realloc: unsafe fn(*mut u8, Layout, usize) -> *mut u8,
+    pub dealloc: unsafe fn(*mut u8, Layout),
+    pub note: fn(Note, *const u8, usize),
+}
+
+unsafe fn pass_alloc(layout: Layout) -> *mut u8 {
+    unsafe { alloc::alloc::alloc(layout) }
+}
+unsafe fn pass_realloc(ptr: *mut u8, layout: Layout, new_size: usize) -> *mut u8 {
+    unsafe { alloc::alloc::realloc(ptr, layout, new_size) }
+}
+unsafe fn pass_dealloc(ptr: *mut u8, layout: Layout) {
+    unsafe { alloc::alloc::dealloc(ptr, layout) }
+}
+fn pass_note(_: Note, _: *const u8, _: usize) {}
+
+/// The pass-through table: the global allocator, no notes.
+pub static PASS_THROUGH: Hooks =
+    Hooks { alloc: pass_alloc, realloc: pass_realloc, dealloc: pass_dealloc, note: pass_note };
+
+static CURRENT: AtomicPtr<Hooks> = AtomicPtr::new(&PASS_THROUGH as *const Hooks as *mut Hooks);
+
+/// Installs `hooks` for the whole process.
+pub fn install(hooks: &'static Hooks) {
+    CURRENT.store(hooks as *const Hooks as *mut Hooks, Ordering::SeqCst);
+}
+
+/// Restores the pass-through table.
+pub fn uninstall() {
+    install(&PASS_THROUGH);
+}
+
+#[inline]
+fn current() -> &'static Hooks {
+    // SAFETY: only ever stores `&'static Hooks`.
+    unsafe { &*CURRENT.load(Ordering::Relaxed) }
+}
+
+#[inline]
+pub(crate) unsafe fn alloc(layout: Layout) -> *mut u8 {
+    unsafe { (current().alloc)(layout) }
+}
+
+#[inline]
+pub(crate) unsafe fn realloc(ptr: *mut u8, layout: Layout, new_size: usize) -> *mut u8 {
+    unsafe { (current().realloc)(ptr, layout, new_size) }
+}
+
+#[inline]
+pub(crate) unsafe fn dealloc(ptr: *mut u8, layout: Layout) {
+    unsafe { (current().dealloc)(ptr, layout) }
+}
+
+#[inline]
+pub(crate) fn note(kind: Note, ptr: *const u8, len: usize) {
+    (current().note)(kind, ptr, len)
+}
+
+/// Reference count stored in front of the text of a heap string, given the text pointer
+/// (`as_ptr()` of a `LeanString` for which `is_heap_allocated()` is true).
+///
+/// # Safety
+/// `data_ptr` must be the text pointer of a heap buffer whose memory is still mapped.
+pub unsafe fn refcount_of_data_ptr(data_ptr: *const u8) -> usize {
+    unsafe { crate::repr::verif_refcount_of_data_ptr(data_ptr) }
+}
